@@ -1,4 +1,7 @@
-(* Property C04 - only statements, each closed by [exact]. *)
+(* Property C04 - only statements, each closed by [exact].
+   `run true` / `stop_loop true` = the code as it is (record_ret_stack publishes header and payload
+   with one size update, fix 4751e05; stop_tracing drops pending forks, fix df8806b);
+   `run false` / `stop_loop false` = the legacy code, kept for the refuted statements. *)
 From Coq Require Import NArith ZArith List Bool Arith.
 Import ListNotations.
 Require Import UV.C04.Model UV.C04.Proofs UV.C04.ProofsLazy UV.C04.ProofsLive UV.C04.Compose UV.C04.ProofsDecode.
@@ -7,50 +10,46 @@ Require Import UV.C04.Model UV.C04.Proofs UV.C04.ProofsLazy UV.C04.ProofsLive UV
    its ring of buffers); the recorder's main thread and writer run interleaved in any order
    (`sched`); the tracee is killed at an arbitrary point (= `sched` ends); then the recorder drains
    the pipe, runs flush_shmem_list and record_remaining_buffer.  The data file then consists of
-   whole records: exactly those completely stored, in order; followed only by the bare header of
-   the record in flight when the kill fell between its two size updates (`extra`). *)
+   whole records: exactly those completely stored, in order - a prefix of what the thread was
+   going to write.  No guard. *)
+Theorem C04_prefix : forall cap recs sched,
+  let s := run true cap sched (init recs) in
+  match_recs (done s) (file (finish s)) = true
+  /\ (exists rest, recs = done s ++ rest)
+  /\ ok_prefix recs (file (finish s)) = true.
+Proof. exact prefix_fixed. Qed.
+Print Assumptions C04_prefix.
+
+Theorem C04_prefix_exact : forall cap recs sched,
+  let s := run true cap sched (init recs) in
+  exists rest, Matches (done s) (file (finish s)) /\ recs = done s ++ rest.
+Proof. exact prefix_general_now. Qed.
+Print Assumptions C04_prefix_exact.
+
+(* both variants at once: the file is the stored records plus `extra` (empty for the code as it is) *)
 Theorem C04_prefix_general : forall single cap recs sched,
   let s := run single cap sched (init recs) in
   exists bs rest, Matches (done s) bs /\ file (finish s) = bs ++ extra single s /\ recs = done s ++ rest.
 Proof. exact prefix_general. Qed.
 Print Assumptions C04_prefix_general.
 
-(* the property, under the exact guard: not between bump16 and bump_payload of a record with payload
-   (`single = false`: the code as found; `single = true`: one size update per record, proposed-fixes/C04-1.diff) *)
-Theorem C04_prefix : forall single cap recs sched,
-  let s := run single cap sched (init recs) in
-  in_window single s = false ->
-  match_recs (done s) (file (finish s)) = true
-  /\ (exists rest, recs = done s ++ rest)
-  /\ ok_prefix recs (file (finish s)) = true.
-Proof. exact prefix_outside_window. Qed.
-Print Assumptions C04_prefix.
-
-(* the repaired code needs no guard *)
-Theorem C04_prefix_fixed : forall cap recs sched,
-  let s := run true cap sched (init recs) in
-  match_recs (done s) (file (finish s)) = true
-  /\ (exists rest, recs = done s ++ rest)
-  /\ ok_prefix recs (file (finish s)) = true.
-Proof. exact prefix_fixed. Qed.
-Print Assumptions C04_prefix_fixed.
-
-(* inside the window the file ends with a header whose payload is missing ... *)
-Theorem C04_window_exact : forall cap recs sched,
+(* legacy code (two size updates per record with payload): between them the file ends with a header
+   whose payload is missing ... *)
+Theorem C04_window_legacy_exact : forall cap recs sched,
   let s := run false cap sched (init recs) in
   in_window false s = true ->
   exists r bs rest, (pc s = PCopy r \/ pc s = PBumpPl r) /\
     Matches (done s) bs /\ file (finish s) = bs ++ hdr r /\ recs = done s ++ r :: rest.
 Proof. exact window_exact. Qed.
-Print Assumptions C04_window_exact.
+Print Assumptions C04_window_legacy_exact.
 
-(* ... and that is not a sequence of whole records: the unguarded statement is false of the code *)
-Theorem C04_header_without_payload_refuted :
+(* ... which is not a sequence of whole records: the property was false of the legacy code *)
+Theorem C04_header_without_payload_legacy_refuted :
   in_window false (run false 4080 w_sched (init w_recs)) = true
   /\ ok_prefix w_recs (file (finish (run false 4080 w_sched (init w_recs)))) = false
   /\ file (finish (run false 4080 w_sched (init w_recs))) = hdr w_r1.
 Proof. exact window_witness. Qed.
-Print Assumptions C04_header_without_payload_refuted.
+Print Assumptions C04_header_without_payload_legacy_refuted.
 
 (* every record stored: nothing is missing *)
 Theorem C04_complete_run : forall single cap recs sched,
@@ -89,13 +88,11 @@ Proof. exact segv_includes_open_calls. Qed.
 Print Assumptions C04_segv_includes_open_calls.
 
 (* hook calls -> records -> stores -> kill anywhere -> recorder: whole records, prefix of the execution *)
-Theorem C04_killed_trace_is_prefix_of_execution : forall single cap ops sched,
+Theorem C04_killed_trace_is_prefix_of_execution : forall cap ops sched,
   wf_ops [] ops = true ->
-  let recs := concat (snd (ops_run [] ops)) in
-  let s := run single cap sched (init recs) in
-  in_window single s = false ->
+  let s := run true cap sched (init (concat (snd (ops_run [] ops)))) in
   exists k, match_recs (firstn k (eager [] ops)) (file (finish s)) = true.
-Proof. exact killed_trace_is_prefix_of_execution. Qed.
+Proof. exact killed_trace_now. Qed.
 Print Assumptions C04_killed_trace_is_prefix_of_execution.
 
 Theorem C04_crashed_trace_is_complete : forall single cap ops sched,
@@ -107,30 +104,35 @@ Theorem C04_crashed_trace_is_complete : forall single cap ops sched,
 Proof. exact crashed_trace_is_complete. Qed.
 Print Assumptions C04_crashed_trace_is_complete.
 
-(* `uftrace record` terminates: once the pipe is drained, if every listed task is exited or a dead
-   task with a real tid, or FINISH was received, the loop of stop_tracing ends within
-   |pending messages| + 1 iterations *)
+(* `uftrace record` terminates: every tracee has closed the pipe (`nowriter`); if after the pending
+   messages every listed task is marked, a pending fork (tid = -1), or a dead task with a real tid - or
+   FINISH was received - the loop of stop_tracing ends within |pending messages| + 2 iterations *)
 Theorem C04_recorder_terminates : forall dead ms s fuel,
   rchan s = ms ->
   forallb (task_done dead) (tids (handle_all ms s)) = true \/ finish_received (handle_all ms s) = true ->
-  (length ms < fuel)%nat ->
-  is_stopped (stop_loop fuel dead s) = true.
+  (length ms + 2 < fuel)%nat ->
+  is_stopped (stop_loop true fuel dead true s) = true.
 Proof. exact recorder_stops. Qed.
 Print Assumptions C04_recorder_terminates.
 
+(* in the words of the property - no hypothesis about forks any more *)
 Theorem C04_recorder_terminates_all_dead : forall dead ms,
   (forall tid, (0 <= tid)%Z -> dead tid = true) ->
-  forallb resolved (tids (handle_all ms (rs0 ms))) = true ->
-  is_stopped (stop_loop (S (length ms)) dead (rs0 ms)) = true.
+  forallb real_or_fork (tids (handle_all ms (rs0 ms))) = true ->
+  is_stopped (stop_loop true (length ms + 3) dead true (rs0 ms)) = true.
 Proof. exact recorder_stops_when_all_dead. Qed.
 Print Assumptions C04_recorder_terminates_all_dead.
 
-(* ... but an entry with tid = -1 (FORK_START without FORK_END) is never marked: the loop never ends *)
-Theorem C04_stuck_forever : forall dead fuel s, stuck s -> is_stopped (stop_loop fuel dead s) = false.
+(* without drop_pending_forks (legacy), or while some process still holds the pipe open, an entry with
+   tid < 0 is never marked and the loop never ends *)
+Theorem C04_stuck_forever : forall dropf nowriter dead,
+  dropf && nowriter = false ->
+  forall fuel s, stuck s -> is_stopped (stop_loop dropf fuel dead nowriter s) = false.
 Proof. exact stuck_forever. Qed.
 Print Assumptions C04_stuck_forever.
 
-Theorem C04_fork_window_refuted :
-  forall fuel, is_stopped (stop_loop fuel (fun _ => true) (rs0 fw_msgs)) = false.
-Proof. exact fork_window_spins. Qed.
-Print Assumptions C04_fork_window_refuted.
+(* FORK_START without FORK_END, every task dead: the legacy recorder never terminated *)
+Theorem C04_fork_window_legacy_refuted :
+  forall fuel, is_stopped (stop_loop false fuel (fun _ => true) true (rs0 fw_msgs)) = false.
+Proof. exact fork_window_legacy_spins. Qed.
+Print Assumptions C04_fork_window_legacy_refuted.
